@@ -84,6 +84,7 @@ NP = [
     ("$a.shape[1]", "(Np.shape1 {a})"),
     ("int(np.max($a))", "Np.amax {a}", "bind"),
     ("np.arange($n)", "(Np.arange {n})"),
+    ("range($n)", "(Np.arange {n})"),
     ("np.unique($k, return_inverse=True, return_counts=True)", "(Np.uniqueInvCounts {k})"),
     ("np.unique($v, return_index=True)[1]", "(Np.uniqueRowIndex {v})"),
     ("np.unique($a)", "(Np.unique {a})"),
@@ -172,17 +173,112 @@ FLOAT = "(({n} : Rat) / {d})"
 
 
 def rules(ret="{e}", raise_=None, extra=(), stmt=(), end=None):
-    return P.Rules2M(expr=list(extra) + CALLS + ATTR + NP, stmt=list(stmt) + ATTR_STMT + NP_STMT, ret=ret, raise_=raise_,
+    return P.Rules2N(expr=list(extra) + CALLS + ATTR + NP, stmt=list(stmt) + ATTR_STMT + NP_STMT, ret=ret, raise_=raise_,
                      raise_by={"ValueError": ".error .shape"}, end=end, binop=BINOP, float_=FLOAT, unit=".ok {e}",
                      bind="({m}).bind fun {x} =>\n{k}")
 
 
-class Tr(P.Translator2M):
-    """Translator2M; a Python variable without letters (`_`) gets the Lean base name `u`"""
+class _Subst(ast.NodeTransformer):
+    """replace every read of the variable `name` by the integer constant `value`"""
+
+    def __init__(self, name, value):
+        self.name, self.value = name, value
+
+    def visit_Name(self, node):
+        if node.id == self.name and isinstance(node.ctx, ast.Load):
+            return ast.copy_location(ast.Constant(value=self.value), node)
+        return node
+
+
+def unroll_constant_range(st):
+    """NORMALISATION loop <-> straight line: `for i in range(<small int literal>): BODY` (no else, no break / continue /
+    return / raise in BODY, `i` not assigned in BODY) is the statements BODY[i := 0]; BODY[i := 1]; ... — the canonical
+    form both spellings are translated to.  Returns the list of statements, or None when the loop is not of that form."""
+    import copy
+    it = st.iter
+    if not (isinstance(it, ast.Call) and isinstance(it.func, ast.Name) and it.func.id == "range" and len(it.args) == 1
+            and not it.keywords and isinstance(it.args[0], ast.Constant) and isinstance(it.args[0].value, int)
+            and not isinstance(it.args[0].value, bool) and 0 <= it.args[0].value <= 8):
+        return None
+    if st.orelse or not isinstance(st.target, ast.Name):
+        return None
+    var = st.target.id
+    for n in ast.walk(ast.Module(body=list(st.body), type_ignores=[])):
+        if isinstance(n, (ast.Break, ast.Continue, ast.Return, ast.Raise, ast.Assert, ast.For, ast.While, ast.Lambda,
+                          ast.ListComp, ast.GeneratorExp, ast.FunctionDef)):
+            return None
+        if isinstance(n, ast.Name) and n.id == var and not isinstance(n.ctx, ast.Load):
+            return None
+    out = []
+    for k in range(it.args[0].value):
+        for b in st.body:
+            out.append(ast.fix_missing_locations(_Subst(var, k).visit(copy.deepcopy(b))))
+    return out
+
+
+class _Normal:
+    """mixin for the two translators: `_` gets the Lean base name `u`; loops over a constant small range are unrolled"""
+
+    def loop(self, st, rest, scope, ind, ctx):
+        flat = unroll_constant_range(st)
+        if flat is not None:
+            return self.block(flat + list(rest), scope, ind, ctx)
+        return super().loop(st, rest, scope, ind, ctx)
+
+
+class Tr(_Normal, P.Translator2N):
+    """Translator2N (module-level helpers of the translated function's module are INLINED at their call sites) with the
+    C17 normalisations; in addition a call `self.helper(args)` of a method the object's own class hierarchy defines
+    inside menpo.shape (and that no rule covers) is inlined the same way: a helper is just a function to translate."""
 
     @staticmethod
     def fresh(name, scope):
-        return P.Translator2M.fresh(name if name.replace("_", "") else "u", scope)
+        return P.Translator2N.fresh(name if name.replace("_", "") else "u", scope)
+
+    def function(self, fn, arg_names, ind=2, allow_unused=()):
+        self._cls = None
+        qn = getattr(fn, "__qualname__", "")
+        if "." in qn:
+            self._cls = (getattr(fn, "__globals__", {}) or {}).get(qn.split(".")[0])
+        return P.Translator2N.function(self, fn, arg_names, ind=ind, allow_unused=allow_unused)
+
+    def _method(self, node, scope):
+        """the plain method `self.<name>(...)` refers to (same class hierarchy, inside menpo.shape), or None"""
+        import types
+        if not (isinstance(node, ast.Call) and isinstance(node.func, ast.Attribute)
+                and isinstance(node.func.value, ast.Name) and node.func.value.id == "self" and "self" in scope):
+            return None
+        cls = getattr(self, "_cls", None)
+        if not isinstance(cls, type):
+            return None
+        for k in cls.__mro__:
+            f = vars(k).get(node.func.attr)
+            if f is not None:
+                if isinstance(f, types.FunctionType) and (f.__module__ or "").startswith("menpo.shape"):
+                    return f
+                return None
+        return None
+
+    def expr(self, node, scope):
+        for i, (pat, tmpl, flag) in enumerate(self.r.expr):
+            env = {}
+            if P.match(pat, node, env):
+                self.used_rules.add(i)
+                return tmpl.format(**{k: self.pure(v, scope) for k, v in env.items()}), flag
+        f = self._method(node, scope)
+        if f is not None:
+            call = ast.Call(func=ast.Name(id=f.__name__, ctx=ast.Load()),
+                            args=[ast.Name(id="self", ctx=ast.Load())] + list(node.args), keywords=list(node.keywords))
+            sub_cls = self._cls
+            try:
+                return self._inline(f, ast.fix_missing_locations(call), scope)
+            finally:
+                self._cls = sub_cls
+        return P.Translator2N.expr(self, node, scope)
+
+
+class TrS(_Normal, S.Translator2S):
+    """Translator2S (heap level) with the C17 normalisations"""
 
 
 def T(**kw):
@@ -228,7 +324,7 @@ def heap_rules():
 
 
 def TH():
-    return S.Translator2S(heap_rules())
+    return TrS(heap_rules())
 
 
 MESH = "{P C T : Type} (s : NMesh P C T)"
@@ -337,6 +433,7 @@ HEADER = """/- TRANSLATED by harness/trans_c17.py (harness/py2lean2.py) from the
    GenProps/C17Src*.lean prove every definition equal to the Core definition the C17 theorems are about. -/
 import MenpoModel.Core.C17Np
 import MenpoModel.Core.C17Heap
+import MenpoModel.Core.PyLoop
 
 set_option linter.unusedVariables false
 
